@@ -3107,6 +3107,9 @@ def replace_collection_add_update_with_collection_literal(source: str) -> str:
                         other_elts.append(ast.Starred(value=arg))
             else:
                 raise RuntimeError(f"Unexpected match type found: {type(m[0].value.func.attr)}")
+        target_name = node.root.targets[0].id
+        if any(any(core.walk(elt, ast.Name(id=target_name))) for elt in other_elts):
+            continue  # The collection is used to compute its own new elements
         if isinstance(assigned_value, (ast.List, ast.Set)):
             elts = assigned_value.elts + other_elts
 
